@@ -22,6 +22,7 @@ struct OpShape
     std::vector<int> buffers = { BUF_SIM };
     std::vector<int> streams = { STR_SIM };
     bool allow_heap = false;
+    int p_dense = 25;         // percent of sentences rendered with no optional whitespace at all
 };
 
 PlanOp make_sentence_op(Rng& rng, const std::string& key, const OpShape& sh);
